@@ -164,6 +164,11 @@ def _times(offsets):
             zones = (tz(2), tz(-23, -59), UTC, tz(5, 30))
             if THOROUGH[0]:
                 zones += (tz(14), tz(-12), tz(0, 1), tz(23, 59), tz(-9, -30))
+            # offsets with a seconds component (historic local mean times)
+            zones += (dt.timezone(dt.timedelta(hours=1, minutes=19,
+                                               seconds=32)),
+                      dt.timezone(-dt.timedelta(hours=4, minutes=56,
+                                                seconds=2)))
             for z in zones:
                 out.append(t.replace(tzinfo=UTC).astimezone(z))
     return out
@@ -196,8 +201,10 @@ def _predicates(ctx):
             outcomes, _i = extract(world, thunk, setup=_setup(extra))
             times = _times([sign * x for x in secs])
             if kind == 'str':
-                grid_t = tuple(x.isoformat() for x in times if x.tzinfo
-                               is not None or True)[:60]
+                # ISO 8601 offsets are whole minutes
+                grid_t = tuple(x.isoformat() for x in times
+                               if x.tzinfo is None or
+                               x.utcoffset().seconds % 60 == 0)[:60]
             else:
                 grid_t = tuple(times)
 
@@ -418,6 +425,12 @@ def _override(ctx):
                        -0.000001, 1.75, -86400.5, 0.1, -0.1)
             grid = {OVERRIDE: instants[:3],
                     arg: tuple(mk(a) for a in amounts) if mk else amounts}
+            if mk:
+                # beyond 2**53 microseconds a float no longer holds the delta
+                grid[arg] += (dt.timedelta(days=200000, microseconds=1),
+                              dt.timedelta(days=-150000, microseconds=-1),
+                              dt.timedelta(days=110000, seconds=86399,
+                                           microseconds=999999))
 
             def oracle3(v, arg=arg, mk=mk):
                 a = v[show(arg)]
@@ -540,6 +553,10 @@ def _fixture(ctx):
         interp.effects[:] = []
         interp.call(interp.get_attr(obj, 'setUp'), [])
         interp.call(interp.get_attr(obj, 'advance_time_seconds'), [K(5)])
+        interp.call(interp.get_attr(obj, 'advance_time_delta'),
+                    [T('sym', 'delta')])
+        # the same fixture object used a second time
+        interp.call(interp.get_attr(obj, 'setUp'), [])
         return K(None)
 
     def extra(interp):
@@ -555,12 +572,16 @@ def _fixture(ctx):
         cleanup = [e for e in o.effects if e[0] == 'call' and
                    e[1] == '.addCleanup']
         adv = o.calls('advance_time_seconds')
-        ok = len(sets) == 1 and sets[0][2] == (OVERRIDE,) and \
-            len(cleanup) == 1 and \
+        advd = o.calls('advance_time_delta')
+        ok = len(sets) == 2 and sets[0][2] == (OVERRIDE,) and \
+            sets[1][2] == (OVERRIDE,) and \
+            len(cleanup) == 2 and \
             T('func', 'clear_time_override') in cleanup[0][2] and \
-            len(adv) == 1 and adv[0][2] == (K(5),)
+            len(adv) == 1 and adv[0][2] == (K(5),) and \
+            len(advd) == 1 and advd[0][2] == (T('sym', 'delta'),)
         detail = [e[:3] for e in o.effects if e[0] == 'call']
     rep.check('R12.3', 'TimeFixture', ok,
-              'setUp installs the override through set_time_override, '
-              'registers clear_time_override as cleanup and advance_* '
-              'delegates: %s' % (detail,))
+              'setUp installs the constructor\'s instant through '
+              'set_time_override (also when the fixture is set up a second '
+              'time after advancing), registers clear_time_override as '
+              'cleanup and advance_* delegates: %s' % (detail,))
